@@ -407,3 +407,46 @@ def expand_all(interned, t, depth=12):
     if len(t) == 2 and t[0] == "#" and isinstance(t[1], int):
         return expand_all(interned, interned.get(t[1], t), depth - 1)
     return tuple(expand_all(interned, x, depth - 1) for x in t)
+
+
+# ------------------------------------------------------------ path queries
+def calls(p, suffix):
+    return [(i, e) for i, e in enumerate(p.effects) if e[0] == "call" and e[1].endswith(suffix)]
+
+
+def truth(p, call_effect):
+    """Boolean result of an opaque call on this path (True/False/None)."""
+    r = call_effect[4]
+    if r[0] == "c":
+        return r[1] != 0
+    if r[0] != "sym":
+        return None
+    c = p.cons.get(r[1])
+    if c is None:
+        return None
+    if c[0] == "eq":
+        return c[1] == 1
+    if 0 in c[1]:
+        return True
+    if 1 in c[1]:
+        return False
+    return None
+
+
+def entered(p, name):
+    return [i for i, e in enumerate(p.effects) if e[0] == "enter" and e[1].endswith("::" + name)]
+
+
+def pushes(p, variant=None):
+    return [(i, e[2]) for i, e in enumerate(p.effects) if e[0] == "push" and (variant is None or is_event(e[2], variant))]
+
+
+def qos_of(F, p):
+    qt = calls(p, "::qos")
+    if not qt:
+        return {"AtMostOnce", "AtLeastOnce", "ExactlyOnce"}
+    return possible(F, p, qt[0][1][4][1], "mqtt::packet::qos::Qos")
+
+
+def errors(p):
+    return [x for x in (word(p) or []) if x.startswith("NotifyError(")]
